@@ -203,6 +203,14 @@ from spyne.protocol.http import HttpPattern
 from spyne.model.primitive import Unicode
 
 
+from spyne import ComplexModel as _CM
+
+
+class PatParcel(_CM):
+    __namespace__ = TNS
+    n = Integer
+
+
 class P(Service):
     @rpc(_returns=Integer, _patterns=[HttpPattern('/user', verb='GET')])
     def user(ctx):
@@ -229,6 +237,16 @@ class P(Service):
     def pin(ctx, pin_id):
         return 7
 
+    # a bare-style method and one whose message lives in another namespace, each behind a pattern: the pattern selects
+    # the method by its public name, whatever its message class is called
+    @rpc(PatParcel, _returns=Integer, _body_style='bare', _patterns=[HttpPattern('/put', verb='GET')])
+    def put_parcel(ctx, p):
+        return 8
+
+    @rpc(_returns=Integer, _in_message_name='{urn:elsewhere}pig', _patterns=[HttpPattern('/pig', verb='GET')])
+    def pig(ctx):
+        return 9
+
     # no explicit address: the pattern answers at the registered (in-message) name, not at the function's name
     @rpc(_returns=Integer, _in_message_name='ting', _patterns=[HttpPattern(verb='GET')])
     def get_ting(ctx):
@@ -238,7 +256,8 @@ class P(Service):
 # the reference routing table, written down independently of what spyne compiles: (registered name, whole-path
 # regular expression, verb expression); literal addresses are listed before the one with a placeholder
 REF_ROUTES = [('itemspin', r'/item/spin', 'GET'), ('ping', r'/ping', None), ('ting', r'/ting', 'GET'), ('user', r'/user', 'GET'),
-              ('userping', r'/user/ping', '(GET|POST)'), ('item', r'/item/[^/]*', 'GET'), ('pin', r'/pin/[^/]*', 'GET')]
+              ('userping', r'/user/ping', '(GET|POST)'), ('item', r'/item/[^/]*', 'GET'), ('pin', r'/pin/[^/]*', 'GET'),
+              ('put_parcel', r'/put', 'GET'), ('pig', r'/pig', 'GET')]
 
 
 PAPP = Application([P], TNS, in_protocol=HttpRpc(), out_protocol=JsonDocument())
